@@ -283,6 +283,8 @@ def mutate(md, rng, outside=False):
             la, lb = _num_of(R.dget(a, 'length') or R.N()), _num_of(R.dget(b, 'length') or R.N())
             if la is not None and lb is not None:
                 d = rng.choice([1, 5, K, int(la) + 1, 0.5])
+                if d == 0.5 and max(abs(la), abs(lb)) >= 2 ** 1000:
+                    d = 1           # not representable as float
                 if d == 0.5:
                     na, nb = R.F(float(la) + 0.5), R.F(float(lb) - 0.5)
                 else:
@@ -320,7 +322,10 @@ def gen_case(rng, outside=False):
     if outside:
         nm = max(nm, 1)
     for k in range(nm):
-        md, lab = mutate(md, rng, outside=outside and k == 0)
+        try:
+            md, lab = mutate(md, rng, outside=outside and k == 0)
+        except OverflowError:      # float() of a huge int inside a mutation recipe
+            lab = 'none'
         if lab != 'none':
             labels.append(lab)
     return {'md': md, 'labels': labels, 'kind': 'outside' if outside else f'mut{len(labels)}'}
@@ -409,7 +414,10 @@ def gen_fs_case(rng):
             p = rng.choice(nodes)
             md = R.replace(md, p, R.I(int(R.build(R.get(md, p))) + rng.choice([1, -1, K])))
     elif disturb == 'mutate':
-        md, _ = mutate(md, rng)
+        try:
+            md, _ = mutate(md, rng)
+        except OverflowError:
+            pass
     return {'md': md, 'fs': {'multi': multi, 'files': files, 'disturb': disturb, 'which': rng.randrange(len(files))},
             'kind': 'fs', 'labels': ['fs:' + disturb]}
 
@@ -675,6 +683,22 @@ def _max_abs(r):
     return m
 
 
+def _sum_abs(r):
+    """Validate.sumAbs of the model: magnitudes of all ints / truncated finite floats, dict keys included"""
+    t = r['t']
+    if t in ('i', 'B'):
+        return abs(int(R.build(r)))
+    if t == 'f':
+        return abs(int(R.build(r))) if r['hex'] not in ('nan', 'inf', '-inf') else 0
+    if t in ('l', 'u'):
+        return sum(_sum_abs(x) for x in r['v'])
+    if t == 'd':
+        return sum(_sum_abs(k) + _sum_abs(v) for k, v in r['v'])
+    if t == 'x' and isinstance(r.get('v'), list):
+        return sum(_sum_abs(x) if isinstance(x, dict) else sum(_sum_abs(y) for y in x) for x in r['v'])
+    return 0
+
+
 def _has_x(r, kinds):
     return any(k in json.dumps(r) for k in kinds)
 
@@ -687,17 +711,10 @@ MATCHERS = {
             ((_info_files(case) or {}).get('t') == 'd') or
             ((_info_files(case) or {}).get('t') == 'x' and _info_files(case)['k'] == 'odict') or
             _unjoinable_path(case))),
-    # D07g: RecursionError from the recursive converters for cyclic / very deeply nested containers
-    'cyclic_or_deep': lambda case, obs, f: (
-        obs.get('kind') == 'internal:RecursionError' and
-        (_has_x(case['md'], ['cyclic-list', 'cyclic-dict', '"deep"']) or R_depth(case['md']) > 100)),
-    # D07h: piece-count check done in float arithmetic: numbers >= 2^53 in the metainfo
-    'float_piece_count': lambda case, obs, f: (
-        _max_abs(R.dget(case['md'], 'info') or R.N()) >= 2 ** 53 and
-        (obs.get('kind') == 'internal:OverflowError' or obs.get('unsound') == 'count')),
-    # D07j: repr() of an offending value with an int of >= 4300 digits inside assert_type's message
+    # D07j: an int of more than 4300 digits formatted into a MetainfoError message (assert_type's repr() of
+    # the offending value, validate()'s 'Expected N pieces')
     'huge_int_in_message': lambda case, obs, f: (
-        obs.get('kind') == 'internal:ValueError' and obs.get('op') != 'magnet-tail' and _max_abs(case['md']) >= 10 ** 4299),
+        obs.get('kind') == 'internal:ValueError' and obs.get('op') != 'magnet-tail' and _sum_abs(case['md']) >= 10 ** 4300),
     # D07i: magnet() reads announce-list / url-list back through getters that raise URLError/TypeError
     'magnet_tail': lambda case, obs, f: (
         obs.get('op') == 'magnet-tail' and obs.get('kind') in ('internal:URLError', 'internal:TypeError',
@@ -812,12 +829,14 @@ def evaluate(ctx, drv, cases):
 
         # ---- model vs specification (proved; a failure is a machinery error) ---------------------
         thm = rep['hypThm']
+        if not rep['wf']:
+            ctx.machinery_error('in-domain case violates the dict invariant Codec.wf (harness conversion problem)', case)
         for name in ('validate', 'dump', 'info', 'magnet', 'ready'):
             m = rep[name]
             if 'err' in m and m['err'] == 'value':
                 ctx.machinery_error(f'model {name} leaked ValueError', case)
             if 'err' in m and m['err'].startswith('internal') and thm and (name != 'magnet' or rep['hypMagnet']):
-                ctx.machinery_error(f'model {name} = {m["err"]} under the hypothesis of C07_only_metainfo_error', case)
+                ctx.machinery_error(f'model {name} = {m["err"]} under the hypothesis outsideD07fD07j of C07_validate_only_metainfo_error / C07_only_metainfo_error_*_partial', case)
         if 'ok' in rep['dump'] and not (rep['modelSound'] or {}).get('sound'):
             ctx.machinery_error('model dump not Sound although C07_export_sound is proved', case)
         if ('ok' in rep['ready'] and rep['ready']['ok']) != ('ok' in rep['validate']):
@@ -851,10 +870,10 @@ def evaluate(ctx, drv, cases):
 def gen_cases(ctx, scale=1.0):
     rng = ctx.rng
     cases = fixed_cases()
-    cases += [gen_case(rng) for _ in range(int(ctx.n(9000, 400000) * scale))]
-    cases += [gen_case(rng, outside=True) for _ in range(int(ctx.n(600, 20000) * scale))]
-    cases += [gen_history(rng) for _ in range(int(ctx.n(1500, 60000) * scale))]
-    cases += [gen_fs_case(rng) for _ in range(int(ctx.n(500, 15000) * scale))]
+    cases += [gen_case(rng) for _ in range(int(ctx.n(9000, 160000) * scale))]
+    cases += [gen_case(rng, outside=True) for _ in range(int(ctx.n(600, 8000) * scale))]
+    cases += [gen_history(rng) for _ in range(int(ctx.n(1500, 24000) * scale))]
+    cases += [gen_fs_case(rng) for _ in range(int(ctx.n(500, 6000) * scale))]
     return cases
 
 
@@ -876,9 +895,11 @@ def run(ctx, drv):
     ctx.notes['assumptions'] = [
         'URL well-formedness is a parameter of model and specification; the harness computes it with urllib '
         '(urlparse succeeds, .port readable, scheme and netloc non-empty), independently of torf.utils.is_url',
-        'math.ceil(size / piece length) is modelled by exact integer division; the correspondence is claimed only '
-        'where the sum of all magnitudes in the metainfo is < 2^53 (hyp); beyond, implementation vs specification only',
-        'nesting depth <= 100 (CPython recursion limit is not modelled; deeper/cyclic values: finding D07g)',
+        'the expected piece count is exact integer arithmetic in code and model (numbers of any size); the '
+        'int->str limit of 4300 digits in error messages is modelled (finding D07j)',
+        'Python dicts have pairwise distinct keys: every in-domain case satisfies Codec.wf (checked, machinery error otherwise)',
+        'nesting depth <= 100 for the model correspondence (CPython recursion limit is not modelled); deeper and cyclic '
+        'values are checked implementation-vs-specification: exports must raise MetainfoError (D07g, repaired in /repo 19d011f)',
         'values outside PyVal (set, generator, bytearray, range, custom mappings, lone surrogates, cyclic) are '
         'checked on the implementation against the specification only',
         'Torrent objects created from a magnet link carry a stored _infohash that infohash falls back to; '
